@@ -321,9 +321,10 @@ func c06Main(args []string) {
 	run.Count("family:cases", int64(n))
 	// A decoder that dies the same way on hundreds of cases (runaway recursion: each death costs ~10 s and a
 	// worker restart) has made its point after three: later worker generations skip the remaining cases of that
-	// (format, forced?) class, counted as skipped. The verdict is already a violation by then.
+	// (format, forced?, sample) class, counted as skipped. The verdict is already a violation by then.
 	var fatalMu sync.Mutex
 	fatalCount := map[string]int{}
+	inconclCount := map[string]int{}
 	skipEnv := func() []string {
 		fatalMu.Lock()
 		defer fatalMu.Unlock()
@@ -337,7 +338,7 @@ func c06Main(args []string) {
 		return []string{"VERIF_C06_SKIP=," + strings.Join(sk, ",") + ","}
 	}
 	skipList := os.Getenv("VERIF_C06_SKIP")
-	classOf := func(c c06Case) string { return fmt.Sprintf("%s|force=%v", c.Format, c.Force) }
+	classOf := func(c c06Case) string { return fmt.Sprintf("%s|force=%v|%s", c.Format, c.Force, c.Seed.Path) }
 	isoRun(run, isoSpec{
 		NJobs:       n,
 		WatchdogSec: 10,
@@ -346,18 +347,24 @@ func c06Main(args []string) {
 		Do: func(run *ev.Run, k int) {
 			c := get(k)
 			if skipList != "" && strings.Contains(skipList, ","+classOf(c)+",") {
-				run.Count("cases:skipped-after-3-fatal-deaths:"+classOf(c), 1)
+				run.Count("cases:skipped-after-repeated-deaths (3 fatal or 40 inconclusive):"+classOf(c), 1)
 				return
 			}
 			c06Run(run, c)
 		},
 		OnDeath: func(run *ev.Run, k int, kind string, tail string) {
 			c := get(k)
+			fatalMu.Lock()
 			if kind != "oom" && kind != "watchdog" && kind != "killed" {
-				fatalMu.Lock()
 				fatalCount[classOf(c)]++
-				fatalMu.Unlock()
+			} else {
+				// inconclusive deaths cost 10 s each too: after 40 of one class the rest of it is skipped as well
+				inconclCount[classOf(c)]++
+				if inconclCount[classOf(c)] >= 40 && fatalCount[classOf(c)] < 3 {
+					fatalCount[classOf(c)] = 3
+				}
 			}
+			fatalMu.Unlock()
 			switch {
 			case kind == "oom" || kind == "watchdog" || kind == "killed":
 				run.Inconclusive(kind + ":" + c.Format)
